@@ -321,4 +321,38 @@ theorem nodup_map_of_injective {γ δ : Type} (f : γ → δ) (hf : Function.Inj
     simp only [List.map_cons, List.nodup_cons, List.mem_map, not_exists, not_and]
     exact ⟨fun y hy e => h.1 (hf e ▸ hy), ih h.2⟩
 
+/-- decimal digits are the bytes 48..57: no path separator, no NUL -/
+theorem decDigits_safe (n : Nat) : ∀ b ∈ decDigits n, b ≠ 47 ∧ b ≠ 92 ∧ b ≠ 0 := by
+  intro b hb
+  simp only [decDigits, List.mem_map] at hb
+  obtain ⟨c, hc, rfl⟩ := hb
+  have := Nat.isDigit_of_mem_toDigits (by decide) (by decide) hc
+  simp only [Char.isDigit, Bool.and_eq_true, decide_eq_true_eq] at this
+  have h1 : 48 ≤ c.toNat := this.1
+  have h2 : c.toNat ≤ 57 := this.2
+  omega
+
+theorem map_toNat_injective : ∀ (l1 l2 : List Char), l1.map Char.toNat = l2.map Char.toNat → l1 = l2 := by
+  intro l1
+  induction l1 with
+  | nil => intro l2 h; cases l2 <;> simp_all
+  | cons c l1 ih =>
+    intro l2 h
+    cases l2 with
+    | nil => simp at h
+    | cons d l2 =>
+      simp only [List.map_cons, List.cons.injEq] at h
+      have hcd : c = d := by
+        have := congrArg Char.ofNat h.1
+        simpa [Char.ofNat_toNat] using this
+      rw [hcd, ih l2 h.2]
+
+/-- different numbers have different decimal digits (`Nat.ofDigitChars` reads them back) -/
+theorem decDigits_injective : Function.Injective decDigits := by
+  intro a b h
+  have h1 : Nat.toDigits 10 a = Nat.toDigits 10 b := map_toNat_injective _ _ h
+  have h2 := congrArg (fun l => Nat.ofDigitChars 10 l 0) h1
+  simp only [Nat.ofDigitChars_toDigits (by decide : 1 < 10) (by decide : 10 ≤ 10)] at h2
+  exact h2
+
 end Mxl.C19
